@@ -63,7 +63,8 @@ if (typeof process !== "undefined" && process.env !== undefined && process.env.G
                 if (b > c.$capacity) { report("I2", "chan#" + i + " buffer " + b + " > capacity " + c.$capacity); }
                 if (r > 0 && b > 0) { report("I2", "chan#" + i + " has " + r + " waiting receiver(s) and " + b + " buffered value(s)"); }
                 if (s > 0 && b < c.$capacity) { report("I2", "chan#" + i + " has " + s + " waiting sender(s) and free buffer space"); }
-                if (s > 0 && r > 0) { report("I2", "chan#" + i + " has waiting senders and receivers at the same time"); }
+                // (waiting senders and receivers at the same time are legitimate: one select may
+                // have a send and a receive case on the same channel)
                 if (c.$closed && (s > 0 || r > 0)) { report("I2", "closed chan#" + i + " still has " + s + " sender(s) / " + r + " receiver(s) queued"); }
             });
             if ($chanNil.$closed !== false || $chanNil.$buffer.length !== 0) { report("I2", "the nil channel was modified"); }
